@@ -10,7 +10,7 @@ corrupted and *nested* frames of the filtered-out protocols.
 
 from checks import common
 from sim import core, link, sched, wire as W
-from sim.observe import run_reader
+from sim.observe import embed_offsets, run_reader
 from sim.runner import UnitResult
 
 PROPERTY = "C11"
@@ -26,7 +26,7 @@ ASSUMPTIONS = common.BASE_ASSUMPTIONS + [
     "if the mask-7 reference run raises or overruns its budget the wire is skipped (C08's business)",
 ]
 REAL_VS_STUB = common.REAL_VS_STUB
-QUICK_RUNS = 5000
+QUICK_RUNS = 18000
 EXPECTED_PROBES = {t: ["nested_wires", "filtered_frame_contains_foreign_preamble", "all_accepted_wires", "corrupted_wires", "socket_runs"] for t in ("quick", "thorough")}
 
 
@@ -118,8 +118,21 @@ def _run(scn, res=None):
                 return ("parsed_not_none_with_parsing_off", f"{tag}")
     raws_t = runs[(7, True)].raws()
     raws_f = runs[(7, False)].raws()
-    if not _subsequence(raws_t, raws_f):
-        return ("parsing_off_changes_framing", f"raws with parsing on {[r.hex()[:30] for r in raws_t][:6]} are not a subsequence of raws with parsing off {[r.hex()[:30] for r in raws_f][:6]}")
+    # Every frame delivered with parsing on must be accounted for with parsing off: delivered as
+    # the same bytes, or lying inside a (larger) raw delivered there.  The second alternative keeps
+    # the clause sound for an implementation that re-synchronises inside a frame its parser
+    # rejected - something only a parsing reader can know - while a frame that parsing=False
+    # loses altogether is still reported.  (Wires whose raws do not embed are C07's business.)
+    off_t = embed_offsets(wire, raws_t)
+    off_f = embed_offsets(wire, raws_f)
+    if off_t is not None and off_f is not None:
+        spans_f = [(o, o + len(r)) for o, r in zip(off_f, raws_f)]
+        for o, r in zip(off_t, raws_t):
+            if not any(a <= o and o + len(r) <= b for a, b in spans_f):
+                return (
+                    "parsing_off_changes_framing",
+                    f"frame {r.hex()[:60]} at offset {o} is delivered with parsing on but no raw delivered with parsing off covers it (parsing off: {[x.hex()[:30] for x in raws_f][:6]})",
+                )
     if not rejected and raws_t != raws_f:
         return ("parsing_off_changes_framing_on_accepted_wire", f"no frame was rejected, yet raws differ: on={len(raws_t)} off={len(raws_f)}")
     return None
